@@ -122,16 +122,17 @@ def u_single_return(c):
     fn = ast.parse(src).body[0]
     rets = [n for n in ast.walk(fn) if isinstance(n, ast.Return)]
     c.cover("single-return")
-    c.oblige("syntax/exactly-one-return", len(rets) == 1)
+    # A structural argument: it proves the clause for every record when the shape is there; when the shape is gone it proves nothing either way (a differently
+    # written format() may be just as right) - so a mismatch is "undecided", never a violation; the case-analysis unit and the stand-in judge the behaviour.
     ok = False
-    if len(rets) == 1:
+    if len(rets) == 1 and isinstance(fn.body[-1], ast.Return):
         v = rets[0].value
         ok = (isinstance(v, ast.Call) and isinstance(v.func, ast.Attribute) and v.func.attr == "replace" and len(v.args) == 2
               and all(isinstance(a, ast.Constant) for a in v.args) and v.args[0].value == "\n"
               and isinstance(v.args[1].value, str) and v.args[1].value.startswith("\n") and v.args[1].value[1:].strip(" \t") == "" and len(v.args[1].value) > 1)
-    c.oblige("syntax/the-return-value-is-the-newline-indenting-replace", ok)
-    # and it is the last statement of the function body (nothing runs after it)
-    c.oblige("syntax/return-is-the-last-statement", isinstance(fn.body[-1], ast.Return))
+    if not ok:
+        raise core.Unsupported("LogFormatter.format no longer ends in its single `return <text>.replace('\\n', '\\n    ')`: the structural argument does not apply")
+    c.oblige("structure/every-exit-returns-the-newline-indenting-replace-of-the-text", ok)
 
 
 @unit("C45", "_safe_unicode", [(M, "_safe_unicode")])
